@@ -69,6 +69,10 @@ func main() {
 		fmt.Printf("Parse error: %s\n", err)
 		os.Exit(1)
 	}
+	if scanner.ErrorCount > 0 {
+		fmt.Printf("Error: %d lexical errors in the grammar\n", scanner.ErrorCount)
+		os.Exit(1)
+	}
 
 	g := grammar.(*ast.Grammar)
 
